@@ -2,34 +2,79 @@
 (* I->S: a recorded run of the real decoders (one event per public call)   *)
 (* must be a behaviour of the decoder machines of BaseN.tla, and every     *)
 (* finalize result must equal the RFC 4648 function of the pushed text.    *)
+(* Likewise the SymbolConverters driven symbol by symbol, and the results  *)
+(* of IterScanner conversions / Nsec3Salt::scan over written symbols.      *)
 EXTENDS BaseN, TLC, Json, IOUtils
 
 Rec == ndJsonDeserialize(IOEnv.TRACE)
 
-VARIABLES l, codec, st, txt
-tvars == <<l, codec, st, txt>>
+VARIABLES l, codec, st, txt,
+          cst, csyms, cout        \* the SymbolConverter being driven: state, symbols so far, output so far
+tvars == <<l, codec, st, txt, cst, csyms, cout>>
+cvars == <<cst, csyms, cout>>
 
 IsEv(e) == l <= Len(Rec) /\ Rec[l].ev = e /\ l' = l + 1
 
-TInit == l = 1 /\ codec = "b16" /\ st = Init16 /\ txt = <<>>
+TInit == /\ l = 1 /\ codec = "b16" /\ st = Init16 /\ txt = <<>>
+         /\ cst = CInit16 /\ csyms = <<>> /\ cout = <<>>
 
 T_New == /\ IsEv("new")
          /\ codec' = Rec[l].codec
          /\ st' = InitOf(Rec[l].codec)
          /\ txt' = <<>>
+         /\ UNCHANGED cvars
 
 T_Push == /\ IsEv("push")
           /\ LET r == PushOf(codec, st, Rec[l].c)
              IN r.res = Rec[l].res /\ st' = r.st
           /\ txt' = Append(txt, Rec[l].c)
-          /\ UNCHANGED codec
+          /\ UNCHANGED <<codec, cvars>>
 
 T_Fin == /\ IsEv("fin")
          /\ FinOf(codec, st) = Rec[l].res
          /\ DecOf(codec, txt) = Rec[l].res        \* the property itself
-         /\ UNCHANGED <<codec, st, txt>>
+         /\ UNCHANGED <<codec, st, txt, cvars>>
 
-TNext == T_New \/ T_Push \/ T_Fin
+\* ---- the symbol level ----
+SymOfEv(e) == [k |-> e.k, v |-> e.v]
+SymsOfEv(a) == [i \in 1..Len(a) |-> SymOfEv(a[i])]
+
+T_CNew == /\ IsEv("cnew")
+          /\ codec' = Rec[l].codec
+          /\ cst' = CInitOf(Rec[l].codec) /\ csyms' = <<>> /\ cout' = <<>>
+          /\ UNCHANGED <<st, txt>>
+
+\* one process_symbol call: the converter machine's result, data included
+T_CSym == /\ IsEv("csym")
+          /\ LET r == CSymOf(codec, cst, SymOfEv(Rec[l]))
+             IN /\ r.res = Rec[l].res
+                /\ cst' = r.st
+                /\ cout' = IF r.res = Err THEN cout ELSE cout \o r.res.ok
+          /\ csyms' = Append(csyms, SymOfEv(Rec[l]))
+          /\ UNCHANGED <<codec, st, txt>>
+
+\* process_tail, and the property: everything the converter emitted is the
+\* RFC 4648 function of the characters the symbols denote
+T_CTail == /\ IsEv("ctail")
+           /\ CTailOf(codec, cst) = Rec[l].res
+           /\ (IF Rec[l].res = Err THEN Err ELSE Ok(cout \o Rec[l].res.ok)) = DecOf(codec, CharsOf(csyms))
+           /\ UNCHANGED <<codec, st, txt, cvars>>
+
+\* IterScanner::convert_token / convert_entry over written symbols
+T_IScan == /\ IsEv("iscan")
+           /\ LET y == SymsOfEv(Rec[l].syms)
+              IN /\ Rec[l].res = DecOf(Rec[l].codec, CharsOf(y))
+                 /\ Rec[l].res = ConvRun(Rec[l].codec, y).fin
+           /\ UNCHANGED <<codec, st, txt, cvars>>
+
+\* Nsec3Salt::scan over written symbols
+T_Salt == /\ IsEv("salt")
+          /\ LET y == SymsOfEv(Rec[l].syms)
+             IN /\ Rec[l].res = SaltDec(CharsOf(y))
+                /\ Rec[l].res = SaltRun(y)
+          /\ UNCHANGED <<codec, st, txt, cvars>>
+
+TNext == T_New \/ T_Push \/ T_Fin \/ T_CNew \/ T_CSym \/ T_CTail \/ T_IScan \/ T_Salt
 TSpec == TInit /\ [][TNext]_tvars
 
 NoPanic == ~st.dead
